@@ -122,6 +122,7 @@ class Translator:
         if f.specials:
             raise Unsupported("specials left after lowering: %r" % sorted(type(s).__name__ for s in f.specials))
         self.meta_regs = {r0: (i_s, cd) for (r0, i_s, cd) in _MetaMultiRegImpl.registry} if meta else {}
+        self.meta = bool(meta)
         for clock in clocks:
             if clock not in f.clock_domains:
                 f.clock_domains.append(ClockDomain(name=clock, reset_less=True))
